@@ -80,7 +80,8 @@ Proof. split; vm_compute; reflexivity. Qed.
 (* Submitting, voting and querying never apply a proposal's effects. *)
 Theorem C17_submit_vote_no_effect :
   forall sls s o s' x, is_msg o -> step sls s o = Ok s' x ->
-    params s' = params s /\ coms s' = coms s /\ bals s' = bals s /\ supply s' = supply s /\ now s' = now s.
+    params s' = params s /\ coms s' = coms s /\ bals s' = bals s /\ supply s' = supply s /\ now s' = now s /\
+    height s' = height s /\ plan s' = plan s.
 Proof. exact msg_no_effect. Qed.
 Print Assumptions C17_submit_vote_no_effect.
 
@@ -93,7 +94,7 @@ Theorem C17_enacted_only_when_passed :
     step sls s (OBegin t) = Ok s' (OutClosed evs) ->
     forall pid oc, In (pid, oc) evs ->
       exists p, In p (props s) /\ p_id p = pid /\
-        ev_ok (mkState (params s) (coms s) (props s) (votes s) (next_id s) (bals s) (supply s) t) p oc.
+        ev_ok (mkState (params s) (coms s) (props s) (votes s) (next_id s) (bals s) (supply s) t (height s + 1) (plan s)) p oc.
 Proof. exact begin_block_events. Qed.
 Print Assumptions C17_enacted_only_when_passed.
 
@@ -121,8 +122,9 @@ Theorem C17_enact_exact :
   forall sls s p s0 oc, attempt_enact sls s p = Ok s0 oc ->
   (oc = Passed /\
    exists c ps, find_com s (p_com p) = Some c /\ has_perms (c_perms c) (params s) (p_content p) = Some true /\
-                validate_pub sls (params s) (p_content p) = true /\
-                run_handler sls (params s) (p_content p) = Ok ps tt /\ s0 = set_params s ps)
+                validate_pub sls (height s) (params s) (p_content p) = true /\
+                run_handler sls (height s) (params s) (p_content p) = Ok ps tt /\
+                s0 = enact_state s (p_content p) ps)
   \/ (oc = Invalid /\ s0 = s).
 Proof. exact attempt_enact_spec. Qed.
 Print Assumptions C17_enact_exact.
@@ -155,14 +157,25 @@ Print Assumptions C17_closed_afterwards.
    if the committee has the permission and the handler succeeds on the current state. *)
 Theorem C17_bad_handler_rejected_at_submission :
   forall sls s proposer cid c s' x, step sls s (OSubmit proposer cid c) = Ok s' x ->
-    exists ps, run_handler sls (params s) c = Ok ps tt /\
+    exists ps, run_handler sls (height s) (params s) c = Ok ps tt /\
     exists cm, find_com s cid = Some cm /\ mem_nat proposer (c_members cm) = true /\
                has_perms (c_perms cm) (params s) c = Some true.
 Proof. exact submit_handler_ok. Qed.
 Print Assumptions C17_bad_handler_rejected_at_submission.
 
-(* ... and if the state moved under a stored proposal so that its handler now
-   fails, the begin blocker closes it as Invalid; it never panics. *)
+(* ... and if the state moved under a stored proposal (a parameter changed, its
+   upgrade plan went stale) so that its handler would fail now, the dry run of
+   enactProposal finds out: the outcome is Invalid and nothing changes ... *)
+Theorem C17_failing_handler_closed_invalid :
+  forall sls s p c, find_com s (p_com p) = Some c ->
+    has_perms (c_perms c) (params s) (p_content p) <> None ->
+    (forall ps, run_handler sls (height s) (params s) (p_content p) <> Ok ps tt) ->
+    attempt_enact sls s p = Ok s Invalid.
+Proof. exact failing_handler_invalid. Qed.
+Print Assumptions C17_failing_handler_closed_invalid.
+
+(* ... so the begin blocker never panics (the proof goes through the dry run:
+   the real handler run is reached only after validate_pub succeeded on the same state). *)
 Theorem C17_begin_block_never_panics :
   forall sls s t, good s -> step sls s (OBegin t) <> Panic.
 Proof. exact begin_block_no_panic. Qed.
@@ -195,14 +208,14 @@ Proof. cbv zeta. repeat split; try (vm_compute; reflexivity). eexists. vm_comput
 (* a first-past-the-post member committee: submit, two of three vote, the next block enacts *)
 Example C17_lifecycle_nonvacuous :
   let c := mkCom 1 CMember [0; 1; 2]%nat [PermParams [w_debt_ac]] 500000000000000000 100 FPTP in
-  let s := mkState [JNull; JNull; enc_struct debt_schema w_debt] [c] [] [] 1 [0; 0; 0] 0 0 in
+  let s := mkState [JNull; JNull; enc_struct debt_schema w_debt] [c] [] [] 1 [0; 0; 0] 0 0 2 0 in
   let doc := JObj [("denom", JStr (SText "usdx")); ("conversion_factor", JStr (SInt 6)); ("debt_floor", JStr (SInt 5))] in
   let ops := [OSubmit 0 1 (CParam [(PKnown 2, Some doc)]); OVote 1 0 1; OBegin 10; OVote 1 1 1] in
   let s1 := run std_slots s ops in
   good s /\ inv_b s = true /\ List.length (props s1) = 1%nat /\
   step std_slots s1 (OBegin 20) =
     Ok (mkState [JNull; JNull; JObj [("denom", JStr (SText "usdx")); ("conversion_factor", JStr (SInt 6)); ("debt_floor", JStr (SInt 5))]]
-                [c] [] [] 2 [0; 0; 0] 0 20) (OutClosed [(1%nat, Passed)]).
+                [c] [] [] 2 [0; 0; 0] 0 20 4 0) (OutClosed [(1%nat, Passed)]).
 Proof.
   cbv zeta. split; [|repeat split; vm_compute; reflexivity].
   split.
@@ -217,3 +230,17 @@ Example C17_added_attribute_refused :
     (Some (JObj [("denom", JStr (SText "usdx")); ("conversion_factor", JStr (SInt 6));
                  ("reference_asset", JStr (SText "usd"))])) = Some false.
 Proof. vm_compute. reflexivity. Qed.
+
+(* a software-upgrade proposal for height 4, submitted at height 2 to a deadline
+   committee: valid at submission, stale when the deadline comes (height 5); the
+   begin blocker closes it as Invalid, schedules nothing and does not panic *)
+Example C17_stale_upgrade_closed_invalid :
+  let c := mkCom 1 CMember [0; 1]%nat [PermOther] 500000000000000000 50 AtDeadline in
+  let s := mkState [] [c] [] [] 1 [0; 0] 0 0 2 0 in
+  let s1 := run [] s [OSubmit 0 1 (CUpgrade 4); OVote 1 0 1; OBegin 10; OVote 1 1 1; OBegin 20] in
+  List.length (props s1) = 1%nat /\ height s1 = 4 /\
+  step [] s1 (OBegin 50) = Ok (mkState [] [c] [] [] 2 [0; 0] 0 50 5 0) (OutClosed [(1%nat, Invalid)]) /\
+  (* had the votes and the deadline come in time, it would have been scheduled *)
+  step [] (run [] s [OSubmit 0 1 (CUpgrade 40); OVote 1 0 1]) (OBegin 50)
+    = Ok (mkState [] [c] [] [] 2 [0; 0] 0 50 3 40) (OutClosed [(1%nat, Passed)]).
+Proof. cbv zeta. repeat split; vm_compute; reflexivity. Qed.
